@@ -54,6 +54,14 @@ def fsStep (ix : Idx) (toks : List String) : Idx × String :=
     match natOfHex k with
     | some k => (ix, match maxKey ix (some k) with | .ok m => hexN 8 m | .error e => errStr e)
     | none => (ix, "bad-op")
+  | ["iternext", k] =>    -- index part of FileStorage.record_iternext(next): "oid next|none"
+    match (if k == "none" then some none else (natOfHex k).map some) with
+    | some nx =>
+      (ix, match recordIterNext ix nx with
+           | .ok (o, some n) => hexN 8 o ++ " " ++ hexN 8 n
+           | .ok (o, none) => hexN 8 o ++ " none"
+           | .error e => errStr e)
+    | none => (ix, "bad-op")
   | ["saveload", p] =>
     match p.toNat? with
     | some p =>
